@@ -232,9 +232,23 @@ def flat(fx, body, inline=(), setup=None):
         """[(extra conditions, pieces)] for one argument"""
         if spec == "{}" and string_value(arg) is not None:
             return [((), [string_value(arg)])]
+        if isinstance(arg, tuple) and arg[:1] == ("format",) and len(arg) == 3 and spec == "{}":
+            # text built by format!(..) and written through a `{}`: its pieces are written in place
+            inner = sym.anon_format(arg)
+            alts_ = [((), [])]
+            args_ = list(inner[2])
+            for part in slots(inner[1]):
+                if re.fullmatch(r"\{[^{}]*\}", part):
+                    if not args_:
+                        return [((), [("hole", spec, arg)])]
+                    ex_ = expand(args_.pop(0), part)
+                    alts_ = [(cs + cs2, ps + ps2) for cs, ps in alts_ for cs2, ps2 in ex_]
+                else:
+                    alts_ = [(cs, ps + [part]) for cs, ps in alts_]
+            return alts_
         if isinstance(arg, tuple) and arg[:1] == ("if",) and len(arg) == 4:
             a, b = expand(arg[2], spec), expand(arg[3], spec)
-            if all(isinstance(p, str) for _, ps in a + b for p in ps):
+            if True:
                 return [(((arg[1], True),) + cs, ps) for cs, ps in a] + [(((arg[1], False),) + cs, ps) for cs, ps in b]
         if isinstance(arg, tuple) and arg[:1] == ("match",) and len(arg) == 3 and all(len(a_) == 2 for a_ in arg[2]):
             rows = [(a_[0], expand(a_[1], spec)) for a_ in arg[2]]
